@@ -3,11 +3,68 @@ import kernel
 import sim
 
 
+def zero_length(rep, tier, sd):
+    """a scenario with zero (and one) intervals and a grid connector, all reports requested (plain floats): the run ends
+    without exception, reports 0 (1) steps and writes files with that many rows"""
+    import contextlib
+    import csv
+    import io
+    import json
+    import os
+    import random
+    import shutil
+    import tempfile
+    import warnings
+    import common as C
+    import scen
+    C.setup_repo_path()
+    from spice_ev.scenario import Scenario
+    rng = random.Random("c17/zero/%d" % sd)
+    n = 0
+    for k in range(4 if tier == "quick" else 30):
+        nint = rng.choice([0, 0, 1])
+        strategy = rng.choice(["greedy", "balanced", "balanced_market", "peak_shaving"])
+        js = scen.gen_scenario(rng, n_gc=rng.choice([1, 2]), n_veh=rng.choice([0, 1, 2]), features=set(rng.sample(["fixed", "generation", "battery"], 2)),
+                               steps=4, interval=rng.choice([15, 60]))
+        js.pop("_features", None)
+        js["scenario"]["n_intervals"] = nint
+        tmp = tempfile.mkdtemp(prefix="verif_c17z_")
+        n += 1
+        try:
+            with warnings.catch_warnings(), contextlib.redirect_stdout(io.StringIO()):
+                warnings.simplefilter("ignore")
+                s = Scenario(js, tmp)
+                try:
+                    s.run(strategy, {"save_results": os.path.join(tmp, "r.json"), "save_timeseries": os.path.join(tmp, "t.csv"),
+                                     "save_soc": os.path.join(tmp, "s.csv"), "ALLOW_NEGATIVE_SOC": True})
+                except Exception as e:  # noqa
+                    rep.add_violation("C17/crash-zero-length", "%s on a scenario with n_intervals=%d (reports requested) raised %r" % (strategy, nint, e),
+                                      {"unit": "zero", "case": {"js": js, "strategy": strategy}})
+                    continue
+            if s.step_i != nint:
+                rep.add_violation("C17/steps", "%s: n_intervals=%d but step_i=%d" % (strategy, nint, s.step_i), {"unit": "zero", "case": {"js": js, "strategy": strategy}})
+            for fn in os.listdir(tmp):
+                if fn.startswith("t") and fn.endswith(".csv"):
+                    rows = list(csv.reader(open(os.path.join(tmp, fn))))
+                    if len(rows) != nint + 1:
+                        rep.add_violation("C17/report-files", "%s: %s has %d data rows for %d steps" % (strategy, fn, len(rows) - 1, nint),
+                                          {"unit": "zero", "case": {"js": js, "strategy": strategy}})
+        finally:
+            shutil.rmtree(tmp, ignore_errors=True)
+    rep.cov["evaluations"] += n
+    rep.notes["zero_length_runs"] = n
+
+
 def run(tier):
-    return sim.sim_run("C17", tier, sim.check_c17, inject=True, extra_units=[])
+    return sim.sim_run("C17", tier, sim.check_c17, inject=True, extra_units=[], extra=zero_length)
 
 
 def replay(payload):
+    if payload["input"].get("unit") == "zero":
+        import common as C
+        rep = C.Report("C17", "quick")
+        zero_length(rep, "quick", C.seed())
+        return 1 if rep.violations else 0
     if payload["input"].get("unit") == "kernel":
         out = kernel.UNIT.run_impl(payload["input"]["case"])
         v = kernel.UNIT.check_property(payload["input"]["case"], out)
